@@ -61,6 +61,56 @@ pub proof fn lemma_ok_shift(t: STerm, c: nat, b: nat, c0: nat, d: nat)
     }
 }
 
+// The converse for the guard: if an upward shift of t is well-formed, so is t (at cutoff 0).
+pub proof fn lemma_ok_unshift(t: STerm, c0: nat, d: nat, c: nat, b: nat)
+    requires
+        s_shift(t, c0, d as int) is Some,
+        s_ok(s_shift(t, c0, d as int).unwrap(), c, b),
+    ensures
+        s_ok(t, c, b),
+    decreases t
+{
+    reveal(s_ok);
+    reveal(s_shift);
+    match t {
+        STerm::Node(k, kids) => {
+            assert(t->Node_1 == kids);
+            let r = s_shift(t, c0, d as int).unwrap();
+            let rk = r->Node_1;
+            assert(r->Node_1 == rk);
+            assert(rk.len() == kids.len());
+            assert forall|i: int| 0 <= i < kids.len() implies s_ok(#[trigger] kids[i], c + binds(k, kids.len(), i), b) by {
+                assert(s_shift(kids[i], c0 + binds(k, kids.len(), i), d as int) is Some);
+                assert(rk[i] == s_shift(kids[i], c0 + binds(k, kids.len(), i), d as int).unwrap());
+                assert(s_ok(rk[i], c + binds(k, rk.len(), i), b));
+                lemma_ok_unshift(kids[i], c0 + binds(k, kids.len(), i), d, c + binds(k, kids.len(), i), b);
+            }
+        }
+        _ => {}
+    }
+}
+
+// What a resolved hole `Unifier(c, s)` tells about its content (used in the hole arms).
+pub proof fn lemma_hole_facts<'a>(t: Term<'a>, cutoff: nat, b: nat)
+    requires
+        t.variant is Unifier,
+        s_ok(view(t), cutoff, b),
+    ensures
+        hole_resolved(t.variant->Unifier_0),
+        t.variant->Unifier_1 < BOUND(),
+        s_shift(hole_view(t.variant->Unifier_0), 0, t.variant->Unifier_1 as int) == Some(view(t)),
+        s_ok(hole_view(t.variant->Unifier_0), 0, b),
+{
+    reveal(s_ok);
+    reveal(view_hole);
+    let c = t.variant->Unifier_0;
+    let s = t.variant->Unifier_1;
+    assert(hole_resolved(c) && s < BOUND());
+    assert(s_shift(hole_view(c), 0, s as int) is Some);
+    lemma_ok_unshift(hole_view(c), 0, s as nat, cutoff, b);
+    lemma_ok_weaken(hole_view(c), cutoff, b, 0, b);
+}
+
 // Opening a well-formed term with a well-formed term gives a well-formed term, with a larger bound.
 pub proof fn lemma_ok_open(t: STerm, c: nat, b: nat, j: nat, u: STerm, bu: nat, s: nat, e: nat)
     requires s_ok(t, c, b), s_ok(u, 0, bu), s <= c + e,
